@@ -494,6 +494,121 @@ def rule_WM6(rep, prog, q, ex):
         rep.unknown(rid, "fewer than 2 stores to dq_state found (constructors vanished?) (%d)" % n)
 
 
+def rule_AI11(rep, prog, q):
+    from .common import concrete_walk_any, ceval
+    rid = rep.rule("C06-AI11", "a queue popped off its target while it cannot be drained (suspended, locked by someone else, out of width) is marked NOT enqueued: "
+                   "_dispatch_queue_drain_try_lock, evaluated for each such state for a target-queue drain (ENQUEUED) and a manager-queue drain (ENQUEUED_ON_MGR), "
+                   "clears that bit in the state it commits - dispatch_resume (and every other "
+                   "wake-up) pushes the queue again only when ENQUEUED is clear, so a stale bit leaves a resumed, idle, non-empty queue that nobody drains", floor=7)
+    fn = prog.fn("_dispatch_queue_drain_try_lock")
+    rep.saw(fn)
+    k = consts.get(["DISPATCH_QUEUE_WIDTH_FULL", "DISPATCH_QUEUE_WIDTH_SHIFT"], srcdir=q.srcdir)
+    FULL, SH = k["DISPATCH_QUEUE_WIDTH_FULL"], k["DISPATCH_QUEUE_WIDTH_SHIFT"]
+    wl = [l for l in fn.all_insts() if l.op == "load" and "dq_width" in prog.fields(l)]
+    sl = [l for l in fn.all_insts() if l.op == "load" and (prog.fields(l) & DQ_STATE)]
+    cx = [c for c in fn.all_insts() if c.op == "cmpxchg" and (prog.fields(c) & DQ_STATE)]
+    me = calls_named(fn, "_dispatch_lock_value_for_self")
+    if not wl or not sl or not cx or not me:
+        rep.unknown(rid, "anchor vanished in _dispatch_queue_drain_try_lock")
+        return
+    W = 4
+    idle = (FULL - W) << SH
+    cases = {"suspended": idle | q.SUSPEND_INTERVAL, "suspended twice": idle | 2 * q.SUSPEND_INTERVAL, "drain locked by another thread": q.WIDTH_FULL_BIT | q.IN_BARRIER | 0x4444,
+             "all width in use": q.WIDTH_FULL_BIT, "inactive": idle | q.INACTIVE | q.NEEDS_ACTIVATION}
+    MGR = consts.get(["DISPATCH_INVOKE_MANAGER_DRAIN"], srcdir=q.srcdir)["DISPATCH_INVOKE_MANAGER_DRAIN"]
+    for name, S0, fl, bit in [(n_, s_, 0, q.ENQUEUED) for n_, s_ in cases.items()] + \
+                             [(n_ + " (popped off the manager queue)", s_, MGR, q.ENQUEUED_ON_MGR) for n_, s_ in list(cases.items())[:3]]:
+        S = S0 | bit
+        env = {l.id: W for l in wl}
+        env.update({l.id: S for l in sl})
+        env.update({c.id: 0x1234 for c in me})
+        env[("a", 1)] = fl
+        hit, env2 = concrete_walk_any(fn, env, lambda i: i in cx or i.op == "ret")
+        v = ceval(fn, hit.ops[2], {k_: v_ for k_, v_ in env2.items() if not isinstance(v_, tuple)}) if hit is not None and hit.op == "cmpxchg" else None
+        rep.require(rid, v is not None and not (v & bit) and (v | bit) == S, fn.file + ":" + str(fn.d.get("line")), fn.name, "popped-queue-keeps-enqueued:%s" % name,
+                    "_dispatch_queue_drain_try_lock on a queue that was popped off its target but is %s (state %#x) commits %s instead of the same state with its ENQUEUED / "
+                    "ENQUEUED_ON_MGR bit cleared: after the matching dispatch_resume() the wake-up sees the bit still set, does not push the queue, and its pending items never run"
+                    % (name, S, ("%#x" % v) if v is not None else "nothing"), sample={"case": name, "state": S, "new": v})
+
+
+def rule_CP12(rep, prog, q):
+    rid = rep.rule("C06-CP12", "decisions taken inside a dq_state CAS loop look at the state the CAS is about to replace: no branch or select inside such a loop depends on "
+                   "a SEPARATE, earlier read of dq_state (for instance `is the queue suspended` sampled before the loop) - a resume that lands between that read and "
+                   "the CAS leaves the redrive to the lock holder, who would still believe the queue suspended and unlock without re-enqueueing", floor=20)
+    def roots(fn, op, depth=0, seen=None):
+        seen = seen if seen is not None else set()
+        out = set()
+        if op[0] != "i" or depth > 10 or op[1] in seen:
+            return out
+        seen.add(op[1])
+        i = fn.insts[op[1]]
+        if i.op == "load":
+            out.add(i)
+            return out
+        if i.op in ("call", "alloca", "cmpxchg", "atomicrmw"):
+            return out
+        ops = [v for v, frm in i.ops] if i.op == "phi" else i.ops
+        for o in ops:
+            if isinstance(o, (list, tuple)) and o and isinstance(o[0], str):
+                out |= roots(fn, o, depth + 1, seen)
+        return out
+    n = 0
+    for fn in sorted(prog.all_functions(), key=lambda f: f.name):
+        for cx in fn.all_insts():
+            if cx.op != "cmpxchg" or not (prog.fields(cx) & DQ_STATE):
+                continue
+            fwd = fn.reach_from_block(cx.block.id)
+            if cx.block.id not in fwd:
+                continue
+            loop = {b for b in fwd if cx.block.id in fn.reach_from_block(b)}
+            n += 1
+            rep.saw(fn)
+            initial = set()
+            for b in loop:
+                for ph in fn.blocks[b].insts:
+                    if ph.op == "phi":
+                        initial |= {v[1] for v, frm in ph.ops if frm not in loop and v[0] == "i"}
+            stale = []
+            for b in loop:
+                t = fn.blocks[b].term
+                conds = [t.ops[0]] if t.op == "br" and t.ops else []
+                conds += [s_.ops[0] for s_ in fn.blocks[b].insts if s_.op == "select"]
+                for c in conds:
+                    stale += [l for l in roots(fn, c) if (prog.fields(l) & DQ_STATE) and l.block.id not in loop and l.id not in initial]
+            rep.require(rid, not stale, (stale[0].loc if stale else cx.loc), fn.name, "cas-decision-on-stale-state:%s" % fn.name,
+                        "a decision inside the dq_state CAS loop of %s depends on a read of dq_state made before the loop (at %s), not on the value being replaced: if the "
+                        "state changes in between (a dispatch_resume landing in the window) the loop commits a decision taken for a state that no longer exists"
+                        % (fn.name, stale[0].loc if stale else ""), sample={"cas": cx.loc})
+    if n < 20:
+        rep.unknown(rid, "fewer than 20 dq_state CAS loops found (%d)" % n)
+
+
+def rule_AI13(rep, prog, q):
+    rid = rep.rule("C06-AI13", "the suspend count is a COUNT: every read-modify-write that touches the suspend-count field of dq_state adds or subtracts "
+                   "SUSPEND_INTERVAL; no xor / or / and ever flips or clears bits of that field (flipping the low bit equals subtracting one only while the count is "
+                   "exactly 1 - with a second suspension outstanding it ADDS one, and the queue stays suspended after every resume has been issued)", floor=8)
+    count_field = ((1 << 64) - 1) & ~(q.SUSPEND_INTERVAL - 1)
+    n = 0
+    for fn in sorted(prog.all_functions(), key=lambda f: f.name):
+        for i in fn.all_insts():
+            if i.op != "atomicrmw" or not (prog.fields(i) & DQ_STATE):
+                continue
+            v = i.ops[-1]
+            n += 1
+            rep.saw(fn)
+            if v[0] != "c":
+                continue
+            c = v[1] & ((1 << 64) - 1)
+            rmw = i.d.get("rmw")
+            bad = (rmw in ("xor", "or") and (c & count_field)) or (rmw == "and" and ((~c) & count_field & ((1 << 64) - 1)))
+            rep.require(rid, not bad, i.loc, fn.name, "suspend-count-changed-bitwise:%s" % fn.name,
+                        "%s changes the suspend count in dq_state with a bitwise %s (operand %#x): that equals the intended add / subtract only for one particular "
+                        "count - with another dispatch_suspend() outstanding the count moves the wrong way and the queue remains suspended after all resumes"
+                        % (fn.name, rmw, c), sample={"site": i.loc, "rmw": rmw})
+    if n < 8:
+        rep.unknown(rid, "fewer than 8 atomic read-modify-writes of dq_state found (%d)" % n)
+
+
 def run(rep, tier="quick", srcdir=None, only=None):
     prog, units = load(UNITS, tier, srcdir)
     rep.units = units
@@ -522,6 +637,12 @@ def run(rep, tier="quick", srcdir=None, only=None):
         rule_TB9(rep, srcdir, tier)
     if want("C06-MP10"):
         rule_MP10(rep, prog, q)
+    if want("C06-AI11"):
+        rule_AI11(rep, prog, q)
+    if want("C06-CP12"):
+        rule_CP12(rep, prog, q)
+    if want("C06-AI13"):
+        rule_AI13(rep, prog, q)
     if want("C04-AI17"):
         # "after the last resume every pending item runs": a suspension that lands while a concurrent drainer is parked in front of a barrier must not make the
         # drainer reserve the barrier's width twice - the queue would be resumed, unlocked and never runnable again (shared with C04)
